@@ -305,6 +305,8 @@ func c08Edits(base lpScript, key *lpKey, nonce []byte) []struct {
 				alter("key=pkix-not-pkcs1", lpParams(types, 1, "pkix", pkix(), nonce))
 				alter("key=trailing-bytes", lpParams(types, 1, "trailing", append(append([]byte(nil), key.pem...), 'x', 'y'), nonce))
 				alter("key=empty", lpParams(types, 1, "empty", nil, nonce))
+				alter("key=line-break-only", lpParams(types, 1, "whitespace", []byte("\n"), nonce))
+				alter("key=white-space-only", lpParams(types, 1, "whitespace", []byte(" \r\n\t\n"), nonce))
 				alter("key=pem-without-end", lpParams(types, 1, "no-pem-end", []byte("-----BEGIN RSA PUBLIC KEY-----\nMIGJAoGBAK"), nonce))
 				alter("key=truncated-der", lpParams(types, 1, "truncated-der", pem.EncodeToMemory(&pem.Block{Type: "RSA PUBLIC KEY", Bytes: x509.MarshalPKCS1PublicKey(&key.priv.PublicKey)[:20]}), nonce))
 			case "paramfmt":
